@@ -169,7 +169,7 @@ func writers(c *rt.Ctx) {
 		return
 	}
 	// CLI writers: migrate new / hand edit + migrate hash, each followed by migrate validate.
-	ncli := c.Pick(6, 40)
+	ncli := c.Pick(8, 40)
 	c.Par(ncli, func(i int, w *rt.W) {
 		r := c.Rand(6, 4, uint64(i))
 		root, err := os.MkdirTemp(c.Scratch, "cliw-")
@@ -199,7 +199,31 @@ func writers(c *rt.Ctx) {
 		w.Begin(map[string]any{"cli-writers": i})
 		for k := 0; k < 6; k++ {
 			var op string
-			switch r.IntN(6) {
+			opn := r.IntN(6)
+			// the first jobs follow fixed scripts (so that e.g. "every file removed, then re-hashed" and
+			// "only sum-ignored files left" are present at every seed); the others are seeded
+			scripts := [][]int{{1, 1, 3, 3, 0, 1}, {0, 3, 1, 5, 0, 2}, {1, 4, 3, 1, 2, 3}, {1, 1, 6, 0, 6, 3}}
+			if i < len(scripts) {
+				opn = scripts[i][k]
+			}
+			switch opn {
+			case 6:
+				op = "every file marked sum-ignore + migrate hash"
+				es, _ := os.ReadDir(mdir)
+				n := 0
+				for _, e := range es {
+					if strings.HasSuffix(e.Name(), ".sql") {
+						os.WriteFile(filepath.Join(mdir, e.Name()), []byte("-- atlas:sum ignore\nselect 1;\n"), 0o644)
+						n++
+					}
+				}
+				if n == 0 {
+					continue
+				}
+				if rc, out := run("migrate", "hash", "--dir", "file://"+mdir); rc != 0 {
+					c.Violation("cli-writer|hash-failed", "atlas migrate hash failed: "+out, map[string]any{"history": hist}, nil)
+					return
+				}
 			case 3:
 				op = "remove last file + migrate hash"
 				es, _ := os.ReadDir(mdir)
